@@ -194,6 +194,13 @@ def handle (args : List String) : String :=
   | ["reshape", i, t, az] =>
     (match parseInts i, parseInts t with
      | some i, some t => showOInts (reshapeTarget i t (az == "1")) | _, _ => bad)
+  | ["noOp", op, side, nd, neutral] =>
+    (match side.toNat?, nd.toNat? with
+     | some side, some nd =>
+       let o : Option NoOp := if op == "Mul" then some .mul1 else if op == "Add" then some .add0
+         else if op == "Sub" then some .sub0 else if op == "Div" then some .div1 else none
+       (match o with | some o => showB (noOpFires o side nd (neutral == "1")) | none => bad)
+     | _, _ => bad)
   | ["gatherSpec", l, idx] =>
     (match parseInts l, parseInts idx with
      | some l, some idx => showOInts (onnxGatherAxis0 l idx) | _, _ => bad)
